@@ -34,6 +34,26 @@ CertTimeOK(tm) ==
             /\ tm.certs[i].nb <= tm.cs.t - tm.cs.acc      \* timestamp.BoundedAfter(NotBefore)
             /\ tm.cs.t + tm.cs.acc <= tm.certs[i].na      \* timestamp.BoundedBefore(NotAfter)
 
-CertTimeFact(tm) == IF CertTimeOK(tm) THEN "valid" ELSE "invalid"
+(* operational: verifyAuthenticTimestamp / verifyTimestamp in the order of the code, with its early returns.
+   Returns the name of the check that fails, or "ok". *)
+TsOperational(tm) ==
+  IF tm.scheme = "sa"
+  THEN (IF \E i \in 1..Len(tm.certs) : tm.signing < tm.certs[i].nb \/ tm.signing > tm.certs[i].na THEN "signing-time-outside-certificate" ELSE "ok")
+  ELSE LET perform0 == tm.tsaListed
+           expired  == \E i \in 1..Len(tm.certs) : Now > tm.certs[i].na
+           perform  == perform0 /\ ~(tm.opt = "afterCertExpiry" /\ ~expired)
+       IN
+       IF ~perform
+       THEN (IF \E i \in 1..Len(tm.certs) : Now < tm.certs[i].nb \/ Now > tm.certs[i].na THEN "now-outside-certificate" ELSE "ok")
+       ELSE IF tm.cs.kind = "absent" THEN "no-countersignature"
+       ELSE IF tm.cs.kind = "garbage" THEN "countersignature-unparsable"
+       ELSE IF tm.cs.kind = "wrongMessage" THEN "mismatched-message"
+       ELSE IF tm.cs.kind = "untrusted" THEN "tsa-not-trusted"
+       ELSE IF tm.cs.kind = "misPurposed" THEN "tsa-certificate-purpose"
+       ELSE IF \E i \in 1..Len(tm.certs) : ~(tm.certs[i].nb <= tm.cs.t - tm.cs.acc) \/ ~(tm.cs.t + tm.cs.acc <= tm.certs[i].na) THEN "timestamp-outside-certificate"
+       ELSE IF tm.cs.kind = "revoked" THEN "tsa-revoked"
+       ELSE "ok"
+
+CertTimeFact(tm) == IF TsOperational(tm) = "ok" THEN "valid" ELSE "invalid"
 
 =============================================================================
